@@ -7,6 +7,17 @@ from fractions import Fraction
 SHAPES = [(2, 1), (2, 2), (1, 1), (1, 3), (3, 2)]
 
 
+# what the harness DECLARED as static trap zones when it built a layout (id(layout) -> names, in order): a check that needs
+# "the static trap zones" must not read them back from the object under test
+DECLARED_STATIC = {}
+_KEEP = []
+
+
+def declared_static(S):
+    names = DECLARED_STATIC.get(id(S.layout))
+    return list(names) if names is not None else list(S.layout.static_traps)
+
+
 def harness_spec():
     from bloqade.geometry.dialects.grid import Grid
     from bloqade.shuttle.arch import ArchSpec, Layout
@@ -15,6 +26,8 @@ def harness_spec():
     park = Grid.from_positions([-4.0, -2.0], [0.5, 1.5])
     lay = Layout(static_traps={"traps": traps, "aux": aux}, fillable={"traps"}, has_cz={"traps"},
                  has_local={"aux"}, special_grid={"park": park})
+    DECLARED_STATIC[id(lay)] = ["traps", "aux"]
+    _KEEP.append(lay)
     return ArchSpec(layout=lay, float_constants={"pitch": 2.5, "dup": 1.5, "origin": 0.0}, int_constants={"rows": 3, "dup": 2, "zero": 0})
 
 
